@@ -1,1 +1,285 @@
-//! placeholder
+//! C32: every created node gets an identity no other node ever had, the identity is stable across
+//! compaction and reopen, and creating nodes never fails because of identity allocation —
+//! whatever the system clock does.
+//!
+//! The clock component of generated external ids is supplied by the `clock` hook (per thread):
+//! stalled, stepping backwards, alternating, advancing 1 ns per call, or the real clock.
+
+use crate::common::cypher::{QErr, run_write};
+use crate::common::report::{Args, CaseOut, Report, Violation, par_cases, threads};
+use crate::common::rng::Rng;
+use crate::common::sut::ScratchDir;
+use ndb_core::query::{Params, prepare};
+use ndb_core::verif::Hooks;
+use ndb_core::{Db, GraphSnapshot};
+use serde_json::json;
+use std::collections::BTreeMap;
+use std::sync::Arc;
+use std::sync::atomic::{AtomicU64, Ordering};
+use std::time::{Duration, Instant};
+
+#[derive(Clone, Copy, Debug, PartialEq)]
+enum ClockKind {
+    Stalled,
+    Backwards,
+    Alternating,
+    OneNsPerCall,
+    Real,
+}
+
+struct Clock {
+    kind: ClockKind,
+    calls: AtomicU64,
+    base: u64,
+}
+
+impl Hooks for Clock {
+    fn clock(&self, counter: u64) -> Option<u64> {
+        let n = self.calls.fetch_add(1, Ordering::SeqCst);
+        let now = match self.kind {
+            ClockKind::Real => return None,
+            ClockKind::Stalled => self.base,
+            // an NTP step: every 7th call the clock jumps back by 5 ns
+            ClockKind::Backwards => self.base + n - 5 * (n / 7).min(n / 5),
+            ClockKind::Alternating => self.base + (n % 2) * 3,
+            ClockKind::OneNsPerCall => self.base + n,
+        };
+        Some(counter + now)
+    }
+}
+
+#[derive(Clone, Debug)]
+enum Step {
+    /// auto-commit statement
+    Stmt(String),
+    /// several statements inside one explicit write transaction
+    Txn(Vec<String>),
+    Compact,
+    Reopen,
+}
+
+fn gen_stmt(rng: &mut Rng, uid: &mut u64) -> String {
+    let n = *rng.pick(&[1usize, 1, 2, 3, 5, 10, 40, 150, 500]);
+    *uid += 1;
+    match rng.below(5) {
+        0 => format!("CREATE (:L {{u: {uid}}})"),
+        1 => format!("CREATE (:L {{u: {uid}}}), (:M {{u: {uid}}}), (:L {{u: {uid}}})"),
+        2 => format!("UNWIND range(1, {n}) AS i CREATE (:L {{u: {uid}, i: i}})"),
+        3 => format!("UNWIND range(1, {}) AS i CREATE (a:L {{u: {uid}, i: i}})-[:R]->(b:M {{u: {uid}, i: i}})", n.min(150)),
+        _ => format!("UNWIND range(1, {}) AS i MERGE (:K {{u: {uid}, i: i}})", n.min(40)),
+    }
+}
+
+fn gen_steps(seed: u64, k: usize) -> Vec<Step> {
+    let mut rng = Rng::derive(seed, k as u64);
+    let mut uid = 0u64;
+    let n = 4 + rng.below(10);
+    let mut v = Vec::new();
+    for _ in 0..n {
+        match rng.weighted(&[60, 20, 8, 12]) {
+            0 => v.push(Step::Stmt(gen_stmt(&mut rng, &mut uid))),
+            1 => {
+                let m = 2 + rng.below(3);
+                v.push(Step::Txn((0..m).map(|_| gen_stmt(&mut rng, &mut uid)).collect()));
+            }
+            2 => v.push(Step::Compact),
+            _ => v.push(Step::Reopen),
+        }
+    }
+    v
+}
+
+fn step_json(s: &Step) -> serde_json::Value {
+    match s {
+        Step::Stmt(q) => json!({"auto-commit": q}),
+        Step::Txn(qs) => json!({"one-transaction": qs}),
+        Step::Compact => json!("compact"),
+        Step::Reopen => json!("reopen"),
+    }
+}
+
+fn is_identity_error(msg: &str) -> bool {
+    let m = msg.to_ascii_lowercase();
+    m.contains("external id") || m.contains("duplicate external") || m.contains("already exists")
+}
+
+/// internal id -> external id for every id ever assigned
+fn identity_map(db: &Db) -> BTreeMap<u32, u64> {
+    let s = db.snapshot();
+    let mut m = BTreeMap::new();
+    let mut i = 0u32;
+    while let Some(e) = s.resolve_external(i) {
+        m.insert(i, e);
+        i += 1;
+    }
+    m
+}
+
+fn run_case(seed: u64, k: usize, kind: ClockKind, out: &mut CaseOut) -> Option<Violation> {
+    let steps = gen_steps(seed, k);
+    let clock = Arc::new(Clock { kind, calls: AtomicU64::new(0), base: 1_700_000_000_000_000_000 + (k as u64) * 1_000_000 });
+    ndb_core::verif::install_thread(clock.clone() as Arc<dyn Hooks>);
+    let r = run_case_inner(seed, k, kind, &steps, out);
+    ndb_core::verif::uninstall_thread();
+    out.count(&format!("clock_calls.{kind:?}"), clock.calls.load(Ordering::SeqCst));
+    r
+}
+
+fn run_case_inner(seed: u64, k: usize, kind: ClockKind, steps: &[Step], out: &mut CaseOut) -> Option<Violation> {
+    let dir = ScratchDir::new("c32");
+    let mut db = match Db::open(dir.db_base()) {
+        Ok(d) => d,
+        Err(_) => {
+            out.inconclusive("open");
+            return None;
+        }
+    };
+    let params = Params::new();
+    let viol = |kindname: &str, what: String, upto: usize| Violation {
+        signature: format!("C32|{kindname}|clock={kind:?}"),
+        summary: what,
+        detail: json!({"clock": format!("{kind:?}"), "steps": steps[..=upto.min(steps.len() - 1)].iter().map(step_json).collect::<Vec<_>>()}),
+        replay: json!({"engine":"storemon","property":"C32","seed":seed,"case":k,"clock":format!("{kind:?}")}),
+    };
+    let mut known: BTreeMap<u32, u64> = BTreeMap::new();
+    for (i, st) in steps.iter().enumerate() {
+        match st {
+            Step::Stmt(q) => {
+                out.evaluations += 1;
+                out.count(&format!("statements.{kind:?}"), 1);
+                match run_write(&db, q, &params) {
+                    Ok(_) => {}
+                    Err(QErr::Runtime(m)) | Err(QErr::Commit(m)) if is_identity_error(&m) => {
+                        return Some(viol("create-failed-on-identity-allocation", format!("statement failed because of identity allocation: {q}: {m}"), i));
+                    }
+                    Err(e) => {
+                        out.inconclusive(&format!("statement-failed:{}", crate::storemon::normalise_msg(&e.to_string())));
+                        return None;
+                    }
+                }
+            }
+            Step::Txn(qs) => {
+                let mut txn = db.begin_write();
+                for q in qs {
+                    out.evaluations += 1;
+                    out.count(&format!("statements.{kind:?}"), 1);
+                    out.count("statements_in_explicit_transactions", 1);
+                    let prepared = match prepare(q) {
+                        Ok(p) => p,
+                        Err(_) => {
+                            out.inconclusive("prepare");
+                            return None;
+                        }
+                    };
+                    let snap = db.snapshot();
+                    if let Err(e) = prepared.execute_mixed(&snap, &mut txn, &params) {
+                        let m = e.to_string();
+                        if is_identity_error(&m) {
+                            return Some(viol("create-failed-on-identity-allocation", format!("statement inside a transaction failed because of identity allocation: {q}: {m}"), i));
+                        }
+                        out.inconclusive(&format!("statement-failed:{}", crate::storemon::normalise_msg(&m)));
+                        return None;
+                    }
+                }
+                if let Err(e) = txn.commit() {
+                    let m = e.to_string();
+                    if is_identity_error(&m) {
+                        return Some(viol("commit-failed-on-identity-allocation", format!("commit failed because of identity allocation: {m}"), i));
+                    }
+                    out.inconclusive("commit-failed");
+                    return None;
+                }
+            }
+            Step::Compact => {
+                if db.compact().is_err() {
+                    out.inconclusive("compact-failed");
+                    return None;
+                }
+                out.count("compactions", 1);
+            }
+            Step::Reopen => {
+                drop(db);
+                db = match Db::open(dir.db_base()) {
+                    Ok(d) => d,
+                    Err(e) => {
+                        out.inconclusive(&format!("reopen-failed:{}", crate::storemon::normalise_msg(&e.to_string())));
+                        return None;
+                    }
+                };
+                out.count("reopens", 1);
+            }
+        }
+        // uniqueness and stability after every step
+        let now = identity_map(&db);
+        let mut seen: BTreeMap<u64, u32> = BTreeMap::new();
+        for (iid, ext) in &now {
+            if let Some(other) = seen.insert(*ext, *iid) {
+                return Some(viol("two-nodes-share-an-identity", format!("internal ids {other} and {iid} share external id {ext}"), i));
+            }
+        }
+        for (iid, ext) in &known {
+            match now.get(iid) {
+                Some(e) if e == ext => {}
+                other => {
+                    let what = match st {
+                        Step::Compact => "compaction",
+                        Step::Reopen => "reopen",
+                        _ => "a later statement",
+                    };
+                    return Some(viol(&format!("identity-changed-by-{}", what.replace(' ', "-")), format!("node {iid} had external id {ext}, after {what} it has {other:?}"), i));
+                }
+            }
+        }
+        out.count("nodes_created", (now.len() - known.len()) as u64);
+        known = now;
+    }
+    None
+}
+
+pub fn main(args: &Args) -> Report {
+    let mut rep = Report::new(
+        "C32",
+        &args.tier,
+        args.seed,
+        "exploration",
+        "create-heavy Cypher histories (single CREATE, multi-node CREATE, UNWIND range(1,n) CREATE with n up to 500, MERGE, several statements in one explicit transaction, back to back) with compaction and reopen, under a controlled clock (stalled, stepping backwards, alternating, 1 ns per call) and the real clock; after every step: no statement failed on identity allocation, all external ids over all internal ids ever assigned are distinct, and no node's (internal, external) pair changed. A cell is (clock behaviour, step kinds)",
+    );
+    rep.assume("the controlled clock only returns values a real system clock can return (stalls and backward steps happen under NTP and coarse timers)");
+    let kinds = [ClockKind::Stalled, ClockKind::Backwards, ClockKind::Alternating, ClockKind::OneNsPerCall, ClockKind::Real];
+    if let Some(p) = &args.replay {
+        let j: serde_json::Value = serde_json::from_str(&std::fs::read_to_string(p).expect("read replay")).expect("json");
+        let kind = kinds.iter().copied().find(|c| format!("{c:?}") == j["clock"].as_str().unwrap_or("")).unwrap_or(ClockKind::Stalled);
+        let mut out = CaseOut::default();
+        if let Some(v) = run_case(j["seed"].as_u64().unwrap(), j["case"].as_u64().unwrap() as usize, kind, &mut out) {
+            out.violations.push(v);
+        }
+        rep.out = out;
+        return rep;
+    }
+    let n = if args.thorough() { 4000 } else { 300 };
+    let deadline = Instant::now() + Duration::from_secs(args.budget_s(100, 900));
+    let seed = args.seed;
+    let (out, _) = par_cases(n, threads(), Some(deadline), |k| {
+        let mut out = CaseOut::default();
+        let kind = kinds[k % kinds.len()];
+        let steps = gen_steps(seed, k);
+        let mut ks: Vec<&str> = steps.iter().map(|s| match s { Step::Stmt(_) => "stmt", Step::Txn(_) => "txn", Step::Compact => "compact", Step::Reopen => "reopen" }).collect();
+        ks.sort();
+        ks.dedup();
+        out.cell(format!("{kind:?}:{}", ks.join("+")));
+        if let Some(v) = run_case(seed, k, kind, &mut out) {
+            out.violations.push(v);
+        }
+        if k < 3 {
+            out.samples.push(json!({"clock": format!("{kind:?}"), "steps": steps.iter().map(step_json).collect::<Vec<_>>()}));
+        }
+        out
+    });
+    rep.out = out;
+    let t = args.thorough();
+    for c in kinds {
+        rep.floor(&format!("statements under clock {c:?}"), rep.counter(&format!("statements.{c:?}")), if t { 500 } else { 60 });
+    }
+    rep.floor("nodes created", rep.counter("nodes_created"), if t { 50_000 } else { 3000 });
+    rep
+}
